@@ -3,6 +3,7 @@
 package main
 
 import (
+	"encoding/json"
 	"fmt"
 	"math"
 	"os"
@@ -486,4 +487,34 @@ func c08seqWorker(arg string, def int, vt string, step int) {
 	ws.Extra["bfs_depth_"+arg] = st.Depth
 	ws.Samples = []string{fmt.Sprintf("%s: states=%d transitions=%d depth=%d closure=%s", sp.Component, st.States, st.Transitions, st.Depth, st.Closure)}
 	out.stats(ws)
+}
+
+// c08replaySeq re-executes a BFS path of part A with all checks.
+func c08replaySeq(a *replayArtefact, file string) int {
+	var ri seqmc.ReplayInfo
+	if err := json.Unmarshal(a.Replay.Path, &ri); err != nil {
+		fmt.Fprintln(os.Stderr, "replay:", err)
+		return 2
+	}
+	parts := strings.Split(a.Replay.Shard, ":")
+	if len(parts) != 4 {
+		return 2
+	}
+	def, _ := strconv.Atoi(parts[1])
+	step, _ := strconv.Atoi(parts[3])
+	sp := c08specsFor(def, parts[2], step)
+	fails := sp.Replay(ri.Path)
+	vrt.FakeClock = nil
+	fmt.Printf("replay %s %s\n", sp.Component, ri.Path)
+	hit := false
+	for _, fl := range fails {
+		fmt.Printf("  FAIL %s: %s\n", fl.Key, fl.Detail)
+		hit = hit || fl.Key == a.Key
+	}
+	if hit {
+		fmt.Printf("VIOLATION property=%s replay=%s\n", a.Property, file)
+		return 1
+	}
+	fmt.Println("  not reproduced")
+	return 0
 }
